@@ -106,10 +106,20 @@ def check_case(run, case):
         # ---- the process boundary: what the real CLI writes when run to exhaustion is the language, each derivation once (non-Markov languages of
         # moderate size; rulesets in legacy code pages included - the tool's stdout is UTF-8 here, so every guess is representable)
         if case.get('cli') and flags['folder'] == 'Grammar' and emitted == expected and not any('M' in b[1] for b in lang.base):
-            want = Counter()
+            # count before expanding: a language of 20 000 pre-terminals may hold 10^8 guesses
+            nguesses = 0
             for bi, idx, pr, labs in lang.preterminals(cap=80000):
-                want.update(lang.expand(labs, list(idx)))
-            if sum(want.values()) <= 6000:
+                k = 1
+                for l, i in zip(labs, idx):
+                    k *= len(lang.groups[l][i][1])
+                nguesses += k
+                if nguesses > 6000:
+                    break
+            want = Counter()
+            if nguesses <= 6000:
+                for bi, idx, pr, labs in lang.preterminals(cap=80000):
+                    want.update(lang.expand(labs, list(idx)))
+            if nguesses <= 6000 and sum(want.values()) <= 6000:
                 from .. import cli, session
                 sn = session.new_session_name('c02cli')
                 fl = (['--skip_brute'] if flags['skip_brute'] else []) + (['--all_lower'] if flags['skip_case'] else [])
